@@ -29,15 +29,25 @@ def configs(tier, seed):
       cfgs.append(dict(name='%s/%d' % (proto, s), proto=proto, shard=s))
   # PICKLE_RECEIVER_MAX_LENGTH as configured ("set this to a higher value if you want to send big metric batches"): only a
   # frame above the configured maximum may close the connection
+  # USE_WHITELIST with lists that admit everything: the admission rules are consulted for every datapoint
+  for proto in ('line', 'udp', 'pickle'):
+    cfgs.append(dict(name='%s/whitelist' % proto, proto=proto, shard=50, whitelist=True))
   for ml in (3 * 2 ** 20, 2048, 2 ** 20 + 1, 'default'):
     cfgs.append(dict(name='pickle/limit%s' % ml, proto='pickle', shard=99, maxlen=ml))
   return cfgs
 
 
+def tag_tail(r):
+  """Sometimes the name carries tags, well-formed or not: either way the datapoint itself is well-formed."""
+  if r.random() < 0.8:
+    return ''
+  return r.choice([';dc=a', ';dc=a;host=b', ';', ';dc', ';dc=', ';=a', ';dc=~a', ';d!c=a', ';a=b;c', '{a="b"}'])
+
+
 # ------------------------------------------------------------------ line items
 def good_line(r, idx):
   from vlib.refs import codec
-  name = 'v%d.%s' % (idx, gen.metric_name(r, nonascii=r.random() < 0.5))
+  name = 'v%d.%s' % (idx, gen.metric_name(r, nonascii=r.random() < 0.5)) + tag_tail(r)
   v = gen.value(r)
   vt = '%d' % v if isinstance(v, int) and abs(v) < 2 ** 53 else codec.spell_float(float(v), r)
   tt = '%d' % r.randrange(0, 2 ** 32)
@@ -138,7 +148,15 @@ def run_config(cfg, res):
   resource.setrlimit(resource.RLIMIT_AS, (4 << 30, 4 << 30))
   from vlib import boot, proto
   from vlib.refs import codec
-  ns = boot.boot('carbon-cache', {'PICKLE_RECEIVER_MAX_LENGTH': cfg['maxlen']} if cfg.get('maxlen') not in (None, 'default') else {})
+  conf = {'PICKLE_RECEIVER_MAX_LENGTH': cfg['maxlen']} if cfg.get('maxlen') not in (None, 'default') else {}
+  files = None
+  if cfg.get('whitelist'):
+    conf['USE_WHITELIST'] = True
+    files = {'whitelist.conf': '.*\n^$\n', 'blacklist.conf': '^this-matches-nothing-at-all$\n(\n'}
+  ns = boot.boot('carbon-cache', conf, files=files)
+  if cfg.get('whitelist'):
+    import carbon.service as service
+    service.createBaseService(None, ns.settings)       # the daemon's own wiring of the lists
   import carbon.protocols as P
   rec = proto.install_recorder()
   r = gen.rng(cfg['seed'], 'C11', cfg['name'])
@@ -359,7 +377,7 @@ def run_config(cfg, res):
           for _ in range(r.randint(0, 8)):
             idx += 1
             if r.random() < 0.55:
-              name = 'v%d.%s' % (idx, gen.metric_name(r, nonascii=r.random() < 0.5))
+              name = 'v%d.%s' % (idx, gen.metric_name(r, nonascii=r.random() < 0.5)) + tag_tail(r)
               t = r.randrange(0, 2 ** 32)
               v = gen.value(r)
               if isinstance(v, int) and abs(v) >= 2 ** 62:
